@@ -7,8 +7,9 @@
    from the Go source at every run; the theorems that mention it are re-checked by coqc against what the
    code says now. Not modelled (sampled by the -race stress run only): the Go memory model below the
    level of data-race freedom, channel-based blocking, panics outside these structures. *)
-From V Require Import Model.C18_Table Model.C18_Exempt Model.C18_Conc Model.C18_Glue Model.C18_Objects Model.C18_Check
-  Gen.Locksets Proofs.C18_Table Proofs.C18_Conc Proofs.C18_Glue Proofs.C18_Objects Proofs.C18_Tie Proofs.C18_Check.
+From V Require Import Model.C18_Table Model.C18_Exempt Model.C18_Conc Model.C18_Wait Model.C18_Glue Model.C18_Objects Model.C18_Check
+  Gen.Locksets Proofs.C18_Table Proofs.C18_Conc Proofs.C18_Wait Proofs.C18_WaitGlue Proofs.C18_WaitTable Proofs.C18_Glue Proofs.C18_Objects
+  Proofs.C18_Tie Proofs.C18_Check.
 
 (* The hand-written exemption table (rule and justification: Model/C18_Exempt.v). Functions listed here
    would be initialisers that run before the object is visible to a second goroutine. It is empty: on the
@@ -35,6 +36,30 @@ Theorem acyclic_no_lock_deadlock (rank : lname -> nat) (progs : nat -> list ev) 
 Proof. exact (acyclic_no_lock_deadlock_l rank progs n s0 s). Qed.
 Print Assumptions acyclic_no_lock_deadlock.
 
+(* The machine with `Wait g` (Model/C18_Wait.v: a thread blocks until every thread of the group g has finished -
+   sync.WaitGroup.Wait for the goroutines the WaitGroup covers, a plain receive for whoever closes the channel).
+   If the wait-for relation
+       "holds lock L while acquiring M"  +  "holds L while waiting for group G"
+     + "a thread of G acquires L"        +  "a thread of G waits for G'"
+   can be ranked strictly (is acyclic) - gordered states exactly these four clauses, per thread program and the groups
+   gs that cover it - then no interleaving of any n threads reaches a state in which every unfinished thread is blocked
+   on a lock or on a group. *)
+Theorem acyclic_wait_for_no_deadlock (rank : node -> nat) (grp : nat -> list group) (progs : nat -> list gev) n s0 s :
+  ginit_ok s0 -> gprog_inv progs s0 ->
+  (forall i, gordered rank (grp i) (progs i)) -> (forall i, gbalanced (progs i)) -> (forall i, n <= i -> progs i = []) ->
+  greach grp s0 s -> ~ gdeadlocked grp n s.
+Proof. exact (acyclic_wait_for_no_deadlock_l rank grp progs n s0 s). Qed.
+Print Assumptions acyclic_wait_for_no_deadlock.
+
+(* it generalises acyclic_no_lock_deadlock: the same statement, obtained from the theorem with waits through the
+   embedding of the lock-only machine (no waits, no groups) *)
+Theorem lock_deadlock_freedom_is_the_wait_free_case (rank : lname -> nat) (progs : nat -> list ev) n s0 s :
+  init_ok s0 -> prog_inv progs s0 ->
+  (forall i, ordered rank (progs i)) -> (forall i, balanced (progs i)) -> (forall i, n <= i -> progs i = []) ->
+  reach s0 s -> ~ deadlocked n s.
+Proof. exact (acyclic_no_lock_deadlock_from_wait rank progs n s0 s). Qed.
+Print Assumptions lock_deadlock_freedom_is_the_wait_free_case.
+
 (* ------------------------------------------------------------------------------------------------ *)
 (* the table generated from the current source                                                        *)
 
@@ -56,6 +81,48 @@ Theorem lock_order_acyclic : exists rank : string -> nat, forall held acquired w
   In (held, acquired, where_) nesting -> (rank held < rank acquired)%nat.
 Proof. exact lock_order_acyclic_l. Qed.
 Print Assumptions lock_order_acyclic.
+
+(* the wait-for graph of the source - the nesting pairs, (lock held -> group waited for) for every X.Wait() / plain
+   receive and every call that may wait, (group -> lock | group) for everything a code unit the group covers may
+   acquire or wait for, calls followed - can be ranked strictly: it has no cycle *)
+Theorem wait_graph_acyclic : exists rank : string -> nat, forall a b where_,
+  In (a, b, where_) (wait_edges nesting waits covers) -> (rank a < rank b)%nat.
+Proof. exact wait_graph_acyclic_l. Qed.
+Print Assumptions wait_graph_acyclic.
+
+(* the table still lists the waits the property is about (Cluster.Shutdown collecting the cluster's goroutines, with
+   the code units that WaitGroup covers; the tracker's Shutdown) - a rename or a pattern the translator no longer
+   recognises must not make the obligation above hold vacuously *)
+Theorem table_covers_waits : wait_coverage_okb waits members = true.
+Proof. exact table_covers_waits_l. Qed.
+Print Assumptions table_covers_waits.
+
+(* hence: threads whose acquisitions and waits are instances of edges of that graph (from every lock held there and
+   from every group that covers the thread) never reach a state in which every unfinished thread is blocked *)
+Theorem table_no_wait_deadlock (grp : nat -> list group) (progs : nat -> list gev) n s0 s :
+  ginit_ok s0 -> gprog_inv progs s0 ->
+  (forall i, gconforms (wait_edges nesting waits covers) (grp i) (progs i)) -> (forall i, gbalanced (progs i)) ->
+  (forall i, n <= i -> progs i = []) ->
+  greach grp s0 s -> ~ gdeadlocked grp n s.
+Proof. exact (table_no_wait_deadlock_l grp progs n s0 s). Qed.
+Print Assumptions table_no_wait_deadlock.
+
+(* the pinned source (S30-S32: Cluster.Shutdown waits for c.wg holding shutdownLock; watchPeers and ready(), which c.wg
+   covers, take shutdownLock; ready() calls Shutdown): the rank test fails on that part of its table, no rank exists,
+   and the two programs "Shutdown" / "watchPeers as pinned" do reach a state where both are blocked *)
+Theorem wait_graph_as_pinned_refuted :
+  wait_graph_okb [] pinned_waits pinned_covers = false /\
+  (~ exists rank : string -> nat, forall a b w, In (a, b, w) (wait_edges [] pinned_waits pinned_covers) -> (rank a < rank b)%nat) /\
+  (forall o, exists s, greach (sd_grp o) (start_of (sd_progs_pinned o)) s /\ gdeadlocked (sd_grp o) 2 s).
+Proof. exact wait_graph_as_pinned_refuted_l. Qed.
+Print Assumptions wait_graph_as_pinned_refuted.
+
+(* the repaired pair (the covered goroutine takes no lock; a goroutine nobody waits for sets `removed` under
+   shutdownLock): no interleaving of Shutdown, watchPeers and that goroutine deadlocks *)
+Theorem shutdown_watchpeers_repaired_no_deadlock o s :
+  greach (sd_grp o) (start_of (sd_progs_repaired o)) s -> ~ gdeadlocked (sd_grp o) 3 s.
+Proof. exact (sd_repaired_never_deadlocks o s). Qed.
+Print Assumptions shutdown_watchpeers_repaired_no_deadlock.
 
 (* no function returns, or ends, with a lock held and no deferred unlock; no unmatched unlock; every
    function that touches a tracked field or its mutex was followed *)
